@@ -503,7 +503,8 @@ def c19_compare(c, a, m):
     # the verdict (==, cmp) is compared only where model and crate speak about the same two values (same canonical strings);
     # a difference in the values themselves is C01/C02/C09's observable, and the oracle (== iff same string, etc.) runs on every case regardless
     fa, fm = a.split(' | '), m.split(' | ')
-    if len(fa) != 3 or len(fm) != 3: return a == m
+    if len(fa) != 3: return 'skip' if a in ('NA', 'SKIP') else a == m       # the crate produced no pair of PURLs: nothing to compare
+    if len(fm) != 3: return 'mismatch'                                         # only the crate produced both PURLs: acceptance is C05/C02's
     if fa[1:] != fm[1:]: return 'mismatch'
     return fa[0] == fm[0]
 c19_compare.obs = lambda c, a: a.split(' | ')[0]
